@@ -62,6 +62,75 @@ pub fn run<'tcx>(tcx: TyCtxt<'tcx>) -> String {
             adts.insert(tcx.def_path(did).to_string_no_crate_verbose(), format!("[{}]", fs.join(",")));
         }
     }
+    // fingerprints: a normalised print of every body, hashed, keyed by crate-independent def-path (C20: a feature only adds items)
+    let mut fps = vec![];
+    for ldid in tcx.hir_body_owners() {
+        let did = ldid.to_def_id();
+        if !matches!(tcx.def_kind(did), rustc_hir::def::DefKind::Fn | rustc_hir::def::DefKind::AssocFn | rustc_hir::def::DefKind::Closure) {
+            continue;
+        }
+        let body = tcx.optimized_mir(did);
+        let mut txt = String::new();
+        for (l, d) in body.local_decls.iter_enumerated() {
+            txt.push_str(&format!("{:?}:{:?};", l, d.ty));
+        }
+        for (bb, data) in body.basic_blocks.iter_enumerated() {
+            txt.push_str(&format!("{:?}:", bb));
+            for st in &data.statements {
+                txt.push_str(&format!("{:?};", st.kind));
+            }
+            txt.push_str(&format!("{:?}|", data.terminator().kind));
+        }
+        let txt = normalise(&txt);
+        let mut h: u64 = 0xcbf29ce484222325;
+        for b in txt.bytes() {
+            h ^= b as u64;
+            h = h.wrapping_mul(0x100000001b3);
+        }
+        let key = tcx.def_path_str(did);
+        if let Ok(pat) = std::env::var("VEKSCAN_FPDUMP") {
+            if key.contains(&pat) {
+                eprintln!("FPDUMP {} :: {}", key, txt);
+            }
+        }
+        fps.push(format!("{}:[\"{:016x}\",{}]", jstr(&key), h, txt.len()));
+    }
     let adtj: Vec<String> = adts.iter().map(|(k, v)| format!("{}:{}", jstr(k), v)).collect();
-    format!("{{\"bodies\":{},\"intoiter_access\":[{}],\"intoiter_structs\":{{{}}}}}", bodies, rows.join(","), adtj.join(","))
+    format!("{{\"bodies\":{},\"intoiter_access\":[{}],\"intoiter_structs\":{{{}}},\"fingerprints\":{{{}}}}}", bodies, rows.join(","), adtj.join(","), fps.join(","))
+}
+
+/// strip crate-local numbering from Debug prints: `DefId(0:24 ~ vek[c083]::ops::X)` -> `DefId(vek::ops::X)`
+fn normalise(s: &str) -> String {
+    let mut out = String::with_capacity(s.len());
+    let b = s.as_bytes();
+    let mut i = 0;
+    while i < b.len() {
+        if s[i..].starts_with("DefId(") {
+            if let Some(t) = s[i..].find(" ~ ") {
+                // only when the tilde belongs to this DefId( ... ) group
+                let close = s[i..].find(')').unwrap_or(usize::MAX);
+                if t < close {
+                    out.push_str("DefId(");
+                    i += t + 3;
+                    continue;
+                }
+            }
+        }
+        if b[i] == b'[' && i + 5 < b.len() && b[i + 5] == b']' && s[i + 1..i + 5].bytes().all(|c| c.is_ascii_hexdigit()) && s[i + 6..].starts_with("::") {
+            i += 6;
+            continue;
+        }
+        if s[i..].starts_with("{impl#") {
+            if let Some(e) = s[i..].find('}') {
+                if s[i + 6..i + e].bytes().all(|c| c.is_ascii_digit()) {
+                    out.push_str("{impl}");
+                    i += e + 1;
+                    continue;
+                }
+            }
+        }
+        out.push(b[i] as char);
+        i += 1;
+    }
+    out
 }
